@@ -209,3 +209,81 @@ func VerifH_C04_O7_scanner_filter_threads() {
 }
 
 var _ zbuf.Filter = (*v04gFilter)(nil)
+
+// v04gKeywordFilter is `s == "ab"` with the buffer filter the compiler derives
+// for a KEYWORD search of "ab" (string-case finder OR field-name finder): the
+// field-name finder keeps scratch state (checked type ids, a field-name
+// iterator), so every worker needs its own.
+type v04gKeywordFilter struct{ v04gFilter }
+
+func (f *v04gKeywordFilter) AsBufferFilter() (*expr.BufferFilter, error) {
+	return expr.NewOrBufferFilter(expr.NewBufferFilterForStringCase(v04gLit), expr.NewBufferFilterForFieldName(v04gLit)), nil
+}
+
+// verif:desc C04-O7s the THREADED scanner with a pushed-down filter whose buffer filter has scratch state (keyword-style: string-case finder OR field-name finder), 5 values in 5 frames read by 2 workers, under every schedule with at most 1 preemption (thorough: 2) at the channel/lock/atomic/map points of scanner.start/worker.run/Pull, WITH happens-before race detection (verif.Races): no two goroutines touch the filter's state, the frame buffers, the batches or the type contexts without an ordering between them (a candidate is confirmed with the Go race detector), and the scanner returns exactly the values with s=="ab", in input order.
+// verif:bounds 5 values {s:"zz"},{s:"ab"},{t:"yy"},{n:1,s:"xx"},{n:1,s:"ab"} (concrete; three frames reach the field-name finder), FrameThresh 1 (one frame per value), optional EndStream before the third; Threads 2; preemption bound 1 (thorough: 2); natively 300 repetitions
+// verif:outside races in bulk copies (copy/append are not tracked); more than 2 workers; compression; other predicates
+// verif:unwind 64
+func VerifH_C04_O7s_scanner_filter_schedules_races() {
+	k := 1
+	if verif.Thorough() {
+		k = 2
+	}
+	verif.Schedules(k)
+	verif.Races(true)
+	eos := verif.Choose("endstream", 2) == 1
+	sink := &v01CapSink{}
+	wctx := zed.NewContext()
+	w := NewWriterWithOpts(sink, WriterOpts{FrameThresh: 1})
+	rs := wctx.MustLookupTypeRecord([]zed.Field{zed.NewField("s", zed.TypeString)})
+	rt := wctx.MustLookupTypeRecord([]zed.Field{zed.NewField("t", zed.TypeString)})
+	rn := wctx.MustLookupTypeRecord([]zed.Field{zed.NewField("n", zed.TypeInt64), zed.NewField("s", zed.TypeString)})
+	// (frames without the string "ab" are the ones that reach the field-name
+	// finder: the first, the third and the fourth, handled by different workers)
+	vals := []zed.Value{
+		zed.NewValue(rs, zcode.Append(nil, []byte("zz"))),
+		zed.NewValue(rs, zcode.Append(nil, []byte("ab"))),
+		zed.NewValue(rt, zcode.Append(nil, []byte("yy"))),
+		zed.NewValue(rn, zcode.Append(zcode.Append(nil, zed.EncodeInt(1)), []byte("xx"))),
+		zed.NewValue(rn, zcode.Append(zcode.Append(nil, zed.EncodeInt(1)), []byte("ab"))),
+	}
+	for i, v := range vals {
+		if i == 2 && eos {
+			verif.Assert(w.EndStream() == nil, "endstream-noerr")
+		}
+		verif.Assert(w.Write(v) == nil, "write-noerr")
+	}
+	verif.Assert(w.Close() == nil, "close-noerr")
+	rounds := verif.NativeRounds(300)
+	ok := true
+	for r := 0; r < rounds; r++ {
+		zctx := zed.NewContext()
+		src := &v01ChunkReader{data: sink.data, chunk: 1 << 20}
+		rd := NewReaderWithOpts(zctx, src, ReaderOpts{Size: 7, Max: 1 << 16, Threads: 2})
+		sc, err := rd.NewScanner(context.Background(), &v04gKeywordFilter{v04gFilter{zctx: zctx, withBF: true}})
+		if err != nil {
+			ok = false
+			break
+		}
+		var got [][]byte
+		for {
+			b, err := sc.Pull(false)
+			if err != nil {
+				ok = false
+				break
+			}
+			if b == nil {
+				break
+			}
+			for _, val := range b.Values() {
+				got = append(got, bytes.Clone(val.Bytes()))
+			}
+			b.Unref()
+		}
+		if len(got) != 2 || !v01Eq(got[0], vals[1].Bytes()) || !v01Eq(got[1], vals[4].Bytes()) {
+			ok = false
+		}
+	}
+	verif.Assert(ok, "exactly-the-matching-values-in-order")
+	verif.Reach("end")
+}
